@@ -60,6 +60,9 @@ SEAM_TREE_ODD = [
 # a 20 KiB file with 40 names and one independent copy
 MANY_LINKS = [{"p": "r/orig", "k": "file", "c": ["base", 20000, 5]}] + \
     [{"p": "r/l/h%02d" % i, "k": "hard", "to": "r/orig"} for i in range(39)] + [{"p": "r/copy", "k": "file", "c": ["base", 20000, 5]}]
+COLLIDE = [{"p": "r/ab/c", "k": "file", "c": ["base", 5000, 6]}, {"p": "r/a/bc", "k": "hard", "to": "r/ab/c"},
+           {"p": "r/e/copy", "k": "file", "c": ["base", 5000, 6]}, {"p": "r/a/b/x", "k": "file", "c": ["base", 300, 7]},
+           {"p": "r/ab/x", "k": "file", "c": ["base", 300, 7]}, {"p": "r/e/x2", "k": "file", "c": ["base", 300, 7]}]
 SITES = ["scan", "rehash#0", "rehash#1", "rehash#2"]
 
 
@@ -111,6 +114,9 @@ def cases(tier, seed):
     out.append({"kind": "threads", "tree": "manylinks", "specs": many, "timeout": 30})
     out.append({"kind": "threads", "tree": "manylinks", "specs": many, "timeout": 30, "env": {"FCLONES_VERIF_DISK_KIND": "unknown"}})
     out.append({"kind": "roots", "tree": "multi"})
+    # hard links / copies whose path components concatenate to the same bytes, under every order of the input paths
+    out.append({"kind": "roots", "tree": "collide"})
+    out.append({"kind": "roots", "tree": "collide", "args": ["-L"]})
     # overlapping input paths: the result may depend neither on their order nor on the size of the walking pool
     for extra in ([], ["--depth", "1"], ["--depth", "2"], ["--hidden"], ["-L"]):
         out.append({"kind": "overlap", "tree": "overlap", "extra": extra})
@@ -164,7 +170,7 @@ for i, L in enumerate((100, 4096, 4097, 12000, 16384, 16385, 20000, 65536, 70000
 def tree_of(name):
     if name == "two_devices":
         return TWO_DEVICES
-    return {"seam5": SEAM_TREE_5, "seam6": SEAM_TREE_6, "multi": MULTI, "seamlinks": SEAM_TREE_LINKS, "seamodd": SEAM_TREE_ODD, "manylinks": MANY_LINKS, "overlap": OVERLAP}[name]
+    return {"seam5": SEAM_TREE_5, "seam6": SEAM_TREE_6, "multi": MULTI, "seamlinks": SEAM_TREE_LINKS, "seamodd": SEAM_TREE_ODD, "manylinks": MANY_LINKS, "collide": COLLIDE, "overlap": OVERLAP}[name]
 
 
 def roots_of(name):
@@ -172,6 +178,8 @@ def roots_of(name):
         return ["r1", "r2"]
     if name == "overlap":
         return ["r", "r/sub"]
+    if name == "collide":
+        return ["r/ab", "r/a", "r/e"]
     return ["r1", "r2", "r3", "r4"] if name == "multi" else ["r"]
 
 
@@ -275,11 +283,17 @@ def _evaluate(case, sc, loop_mp):
                     check("threads:%s:%s:%d" % (" ".join(case.get("args", [])), " ".join(spec), rep), spec + roots, env0, "threads")
                     transitions += 1
         elif case["kind"] == "roots":
-            for perm in itertools.permutations(roots):
-                check("roots:" + " ".join(perm), list(perm), env0, "root_order")
+            xa = case.get("args", [])
+            rr = roots_of(case["tree"])
+            roots = rr
+            for perm in itertools.permutations(rr):
+                check("roots:" + " ".join(xa + list(perm)), xa + list(perm), env0, "root_order")
                 transitions += 1
-            for perm in list(itertools.permutations(roots))[::5]:
-                check("stdin:" + " ".join(perm), ["--stdin"], env0, "stdin", stdin=("\n".join(perm) + "\n").encode())
+                if case["tree"] != "multi":
+                    check("roots:-t 1 " + " ".join(xa + list(perm)), ["-t", "1"] + xa + list(perm), env0, "root_order")
+                    transitions += 1
+            for perm in list(itertools.permutations(rr))[::5]:
+                check("stdin:" + " ".join(xa + list(perm)), xa + ["--stdin"], env0, "stdin", stdin=("\n".join(perm) + "\n").encode())
                 transitions += 1
             # input paths that are not valid UTF-8, contain blanks or a trailing blank: as arguments and on stdin
             odd = [sc.path("r5 x").decode(), os.fsdecode(sc.path("r6") + b"\xff"), sc.path("r7 ").decode()]
